@@ -1,8 +1,20 @@
 // Family binary "downsample": C36, C37, C38, C39 (pkg/compact/downsample).
 package main
 
-import "github.com/thanos-io/thanos/verifharness/hlib"
+import (
+	"os"
+
+	"github.com/thanos-io/thanos/verifharness/hlib"
+)
 
 var props []*hlib.Prop
 
-func main() { hlib.Main(props) }
+func main() {
+	// `child-op`: answer one ds.* op line from stdin; used by the parent for calls into the real
+	// code that may not terminate (see runChild in ds.go).
+	if len(os.Args) == 2 && os.Args[1] == "child-op" {
+		childMain()
+		return
+	}
+	hlib.Main(props)
+}
